@@ -259,7 +259,7 @@ def internal_case(ctx):
             seen["nonempty"] += 1
         judge_entries(case, "intersection (called internally)", result, ca, cb, 1e-6 * L, rational)
 
-    mon.attach(jc.JordanCurve, "intersection", post=post, label="JordanCurve.intersection")
+    mon.attach_path(jc, "JordanCurve", "intersection", post=post, label="JordanCurve.intersection")
     try:
         calls = [("or", lambda a, b: a | b), ("sub", lambda a, b: a - b), ("in", lambda a, b: b in a), ("eq", lambda a, b: a == b)]
         if G.spec_is_curved(sa) or G.spec_is_curved(sb):
